@@ -43,7 +43,7 @@ Lemma chain_names : forall r p,
   lists_eqb (map (fun x => if is_name x then x else attach_ev x) (relink_chain_t p (map reload_ev r))) r = canon_chain p r.
 Proof.
   induction r as [|v r IH]; intros p H; [reflexivity|].
-  cbn [forallb] in H. apply andb_true_iff in H as [Hv Hr]. destruct v as [| | | | |n lk|]; simpl in Hv; try discriminate.
+  cbn [forallb] in H. apply andb_true_iff in H as [Hv Hr]. destruct v as [| | | | |n lk| |]; simpl in Hv; try discriminate.
   cbn [map reload_ev relink_chain_t next_prev is_name canon_chain].
   assert (E : (match link_of p with Some l => VName n l | None => VName n LNone end) = VName n (chain_link p)).
   { unfold chain_link. destruct (link_of p); reflexivity. }
@@ -55,7 +55,7 @@ Qed.
 
 Lemma next_prev_reload v : (forall s, v <> VEnum s) -> next_prev PvNone (reload_ev v) = next_prev PvNone v.
 Proof.
-  intro H. destruct v as [| | |s| | |c fs]; try reflexivity; [exfalso; exact (H s eq_refl)|].
+  intro H. destruct v as [| | |s| | |c fs|]; try reflexivity; [exfalso; exact (H s eq_refl)|].
   cbn [reload_ev]. destruct (String.eqb c "ExprAttribute"); [reflexivity|]. destruct (String.eqb c "ExprParameter"); reflexivity.
 Qed.
 
@@ -94,7 +94,7 @@ Proof.
       cbn [map String.eqb Ascii.eqb Bool.eqb relink_chain_t link_of].
       rewrite ev_eqb_node, String.eqb_refl, fields_eqb_cons, String.eqb_refl. cbn [andb].
       change (fields_eqb [] []) with true. rewrite andb_true_r, ev_eqb_list, lists_eqb_cons, Hfirst.
-      destruct first as [| | |s| | |c' fs']; try (rewrite (chain_names r _ Hr); reflexivity).
+      destruct first as [| | |s| | |c' fs'|]; try (rewrite (chain_names r _ Hr); reflexivity).
       rewrite next_prev_reload by (intros s E; discriminate E). rewrite (chain_names r _ Hr). reflexivity.
     + assert (Hdist : distinct (keys_of fs) = true).
       { rewrite Hkeys. apply filter_distinct.
